@@ -33,6 +33,7 @@ CONSTANTS Clients,        \* set of client process names, e.g. {"p1","p2"}
           InitDoc,        \* BOOLEAN: the key exists (value 0) before the clients start
           FeedInit,       \* "start": the feed is started during the run; "running": it runs before the clients start
           DeliverLast,    \* BOOLEAN: (generation only) deliveries are scheduled after all clients are done
+          EnterGate,      \* BOOLEAN: a client's code before it takes the bucket mutex is a step of its own (gate txn.enter)
           PostUnderLock, RegisterAtomic
 
 VARIABLES prog,      \* [Clients -> Kinds]: what each client runs (chosen initially, then constant)
@@ -60,7 +61,7 @@ Init ==
     /\ prog \in [Clients -> Kinds]
     /\ doc = IF InitDoc THEN [cas |-> 1, val |-> 0, live |-> TRUE] ELSE [cas |-> 0, val |-> 0, live |-> FALSE]
     /\ clock = IF InitDoc THEN 1 ELSE 0
-    /\ pc = [p \in Clients |-> "start"]
+    /\ pc = [p \in Clients |-> IF EnterGate THEN "enter" ELSE "start"]
     /\ seen = [p \in Clients |-> [cas |-> IF InitDoc THEN 1 ELSE 0, val |-> 0]]
     /\ pend = [p \in Clients |-> 0]
     /\ okcount = [p \in Clients |-> 0]
@@ -89,6 +90,12 @@ Commit(p, newdoc, n) ==
 Fail(p, next) ==
     /\ pc' = [pc EXCEPT ![p] = next]
     /\ UNCHANGED <<prog, doc, clock, okcount, queue, pend>>
+
+(* the client's code up to the point where it asks for the bucket mutex: no shared state is touched *)
+Enter(p) ==
+    /\ pc[p] = "enter"
+    /\ pc' = [pc EXCEPT ![p] = "start"]
+    /\ UNCHANGED <<prog, doc, clock, seen, pend, okcount, queue, fpc, delivered, lastRun, ckpt, ckpend, stops>>
 
 (* first step of a client *)
 Start(p) ==
@@ -172,7 +179,7 @@ RunStep ==
        /\ UNCHANGED <<prog, doc, pc, seen, pend, okcount, queue, delivered, lastRun, ckpend, stops>>
 
 Next ==
-    \/ \E p \in Clients : (Start(p) \/ Txn(p) \/ Post(p)) /\ sched' = Append(sched, p)
+    \/ \E p \in Clients : (Enter(p) \/ Start(p) \/ Txn(p) \/ Post(p)) /\ sched' = Append(sched, p)
     \/ FeedStep /\ sched' = Append(sched, "f")
     \/ RunStep /\ sched' = Append(sched, "run")
 
